@@ -50,8 +50,13 @@ THEOREMS = [
     'AbacusVerif.Staging.staged_pinds_point_to_host',
     'AbacusVerif.Staging.already_sorted_noop',
     'AbacusVerif.Staging.concat_rows',
+    # C12 -> C09 link (Props/C12LinkC09.lean): the staged tables are valid input of C09's catalogue model
+    'AbacusVerif.StagingLink.staged_pinds_in_range',
+    'AbacusVerif.StagingLink.hostsPresent_needed',
+    'AbacusVerif.StagingLink.needed_cols_returned',
+    'AbacusVerif.StagingLink.staged_tables_feed_c09',
 ]
-LEAN_MODULES = ['AbacusVerif.Generated.StagingCols', 'AbacusVerif.Props.C12']
+LEAN_MODULES = ['AbacusVerif.Generated.StagingCols', 'AbacusVerif.Props.C12', 'AbacusVerif.Props.C12LinkC09']
 DRIVER = 'drv_c12'
 RULE = ('synthetic subsample file sets read by the real AbacusHOD.__init__/staging: exhaustive id arrangements '
         '(all permutations of 2..3 (4 thorough) ids x all splits into two slab files x want_AB/want_shear) plus seeded '
